@@ -165,28 +165,12 @@ def strat_repack(tier):
 
 
 def _lib_codes():
-    """code objects of every function/method defined in bec2format.bec2file, bec2format.crypto and the crypto plug-in module"""
     import sys as _sys
-    import types as _types
 
     import register_crypto_plugin as _plug
+    from vlib import interleave
 
-    mods = [_sys.modules["bec2format.bec2file"], _sys.modules["bec2format.crypto"], _plug]
-    files = {m.__file__ for m in mods}
-    out = set()
-
-    def add(v):
-        f = v.__func__ if isinstance(v, (classmethod, staticmethod)) else v.fget if isinstance(v, property) else v
-        if isinstance(f, _types.FunctionType) and f.__code__.co_filename in files:
-            out.add(f.__code__)
-
-    for m in mods:
-        for v in list(vars(m).values()):
-            add(v)
-            if isinstance(v, type):
-                for a in list(vars(v).values()):
-                    add(a)
-    return out
+    return interleave.codes_of([_sys.modules["bec2format.bec2file"], _sys.modules["bec2format.crypto"], _plug])
 
 
 def check_interleave(case, rec):
